@@ -266,3 +266,40 @@ attributes_match = FunctionContract(
             ("if attributes.get(attr) != value:", "if attributes.get(attr) == value:")],
 )
 CONTRACTS.append(attributes_match)
+
+
+# ------------------------------------------------------------------ _build_link_interaction_from: a link interaction on a placement
+ParamV, MetaV = TKey('ParamV'), TKey('MetaV')
+LInter = TTuple(TSeq(LIdx), TSeq(ParamV), MetaV, names=['atoms', 'parameters', 'meta'])
+MInter = TTuple(TSeq(MIdx), TSeq(ParamV), MetaV, names=['atoms', 'parameters', 'meta'])
+
+
+def setup_bli(cx):
+    eng = cx.eng
+    is_eff = cx.uf('is_effector', [ParamV], TBool)                      # callable(param): a geometry-derived parameter
+    value_on = cx.uf('value_on', [ParamV, TMap(LIdx, MIdx)], ParamV)    # param(molecule, match): computed on this placement
+    match = cx.val('match', TMap(LIdx, MIdx))
+    i_atoms, i_params, i_meta = cx.val('link_atoms', TSeq(LIdx)), cx.val('link_parameters', TSeq(ParamV)), cx.val('link_meta', MetaV)
+    cx.spec_env['callable'] = Builtin(lambda e, p: wrap(TBool, is_eff(to_z3(p, ParamV))), 'callable')
+    eng.methods[('ParamV', '__call__')] = lambda e, p, mol, mt: SV(ParamV, value_on(to_z3(p, ParamV), to_z3(mt, TMap(LIdx, MIdx))))
+    o = Obj('Interaction', atoms=i_atoms, parameters=i_params, meta=i_meta)
+    o.attrs['_replace'] = Builtin(lambda e, atoms=None, parameters=None: (atoms, parameters, o.attrs['meta']), '_replace')
+    cx.spec_env['I0'] = Obj('I0', atoms=i_atoms, parameters=i_params, meta=i_meta)
+    return dict(molecule=Obj('Molecule'), interaction=o, match=match)
+
+
+build_link_interaction = FunctionContract(
+    F, '_build_link_interaction_from', 'C05', setup=setup_bli, spec_env=dict(MIdx=MIdx, LIdx=LIdx),
+    requires=["forall(lambda j: implies(0 <= j and j < len(I0.atoms), I0.atoms[j] in match))"],
+    ensures=[
+        # the interaction is placed on exactly the atoms that the placement assigns to the link's atoms, in order;
+        "len(result[0]) == len(I0.atoms) and forall(lambda j: implies(0 <= j and j < len(I0.atoms), result[0][j] == match[I0.atoms[j]]))",
+        # geometry-derived parameters are computed from this placement, the others are kept; the meta data are kept
+        "len(result[1]) == len(I0.parameters) and forall(lambda j: implies(0 <= j and j < len(I0.parameters), result[1][j] == "
+        "   (value_on(I0.parameters[j], match) if is_effector(I0.parameters[j]) else I0.parameters[j])))",
+        "result[2] == I0.meta",
+    ],
+    canary=[("param(molecule, match) if callable(param) else param", "param if callable(param) else param"),
+            ("atoms = tuple(match[idx] for idx in interaction.atoms)", "atoms = tuple(match[interaction.atoms[0]] for idx in interaction.atoms)")],
+)
+CONTRACTS.append(build_link_interaction)
